@@ -274,7 +274,9 @@ func sanitize(s string) string {
 // sameClass says whether got is the same violation class as want: same
 // property and clause. Facts may legitimately simplify while shrinking.
 func sameClass(want, got *Violation) bool {
-	return got != nil && got.Prop == want.Prop && got.Clause == want.Clause
+	// Shrinking never crosses the line between a listed (known) finding
+	// and an unlisted violation of the same clause.
+	return got != nil && got.Prop == want.Prop && got.Clause == want.Clause && isKnown(got) == isKnown(want)
 }
 
 // Minimize shrinks a failing tape while the same violation class persists:
